@@ -248,14 +248,26 @@ def _compile_files_cache(filenames,
                          encoding,
                          cache_dir,
                          numeric_enums):
-    key = [codec.encode('ascii')]
+    # Everything that influences the compiled specification is part
+    # of the key: the codec, the options and the contents of each
+    # file (length prefixed to keep file boundaries apart).
+    key = [
+        codec.encode('ascii'),
+        repr((numeric_enums,
+              encoding,
+              sorted(any_defined_by_choices.items())
+              if any_defined_by_choices else None)).encode('utf-8')
+    ]
 
     if isinstance(filenames, str):
         filenames = [filenames]
 
     for filename in filenames:
         with open(filename, 'rb') as fin:
-            key.append(fin.read())
+            contents = fin.read()
+
+        key.append(str(len(contents)).encode('ascii') + b':')
+        key.append(contents)
 
     key = b''.join(key)
     cache = diskcache.Cache(cache_dir)
@@ -359,8 +371,8 @@ def compile_files(filenames,
 
     `cache_dir` specifies the compiled files cache location in the
     file system. Give as ``None`` to disable the cache. By default the
-    cache is disabled. The cache key is the concatenated contents of
-    given files and the codec name. Using a cache will significantly
+    cache is disabled. The cache key is the codec name, the options
+    and the contents of given files. Using a cache will significantly
     reduce the compile time when recompiling the same files. The cache
     directory is automatically created if it does not exist. Remove
     the cache directory `cache_dir` to clear the cache.
